@@ -59,6 +59,14 @@ Parse(g) == ParseSeq(g, 1, TRUE).items
 
 -----------------------------------------------------------------------------
 (* 2. Declarative facts.                                                    *)
+(* the program as a flat token sequence: instructions, and an opening / a closing *)
+(* marker around the items of every block (used to compare DEEPLY nested programs) *)
+RECURSIVE Tokens(_)
+Tokens(p) ==
+  IF p = <<>> THEN <<>>
+  ELSE LET h == Head(p) IN
+       (IF "b" \in DOMAIN h THEN <<[br |-> 1]>> \o Tokens(h.b) \o <<[br |-> 0]>> ELSE <<h>>) \o Tokens(Tail(p))
+
 RECURSIVE Flatten(_)
 Flatten(p) ==
   IF p = <<>> THEN <<>>
